@@ -113,6 +113,13 @@ pub fn check_variant(text: &[u8], vname: &str, model: &Model<'_>, names: &Names,
                 rep.count("answers_with_more_than_256_frames", 1);
             }
         }
+        // every fifth query is FIRST asked by a caller that drops the iterator after one or two
+        // frames: what an abandoned iterator leaves behind must not change later answers
+        if qn % 5 == 4 && !exp.is_empty() {
+            let k = 1 + (qn as usize / 5) % 2;
+            let _ = (m.frames_partial(c, me, l as usize, file, k), mp.frames_partial(c, me, l as usize, file, k), cache.frames_partial(c, me, l as usize, file, k));
+            rep.count("queries_first_asked_with_an_abandoned_iterator", 1);
+        }
         for which in 0..3 {
             match which {
                 0 => m.frames(c, me, l as usize, file, None, &mut got),
